@@ -125,6 +125,7 @@ inline ForkStats run_cases_forked(Ctx& C, const std::vector<ForkCase>& cases, in
             else if (f[0] == "V" && f.size() > 2) C.viol(f[1], f[2], J().s("case", in_flight >= 0 ? cases[std::size_t(in_flight)].label : "?").n("case_index", in_flight).str());
             else if (f[0] == "C" && f.size() > 2) C.count(f[1], std::atoll(f[2].c_str()));
             else if (f[0] == "H" && f.size() > 1) C.eval(std::strtoull(f[1].c_str(), nullptr, 10));
+            else if (f[0] == "S" && f.size() > 1) C.sample(f[1], 4);
          }
       }
       ::close(pfd[0]);
